@@ -33,7 +33,7 @@ var lifetimes = []int64{-1, -1, -1, 0, 1, 2, 30, 59, 60, 61, 300, 599, 600, 601,
 var allDefects = []string{
 	"nomi", "nomi-bare", "wrongpass", "otheruserpass", "unknownuser", "unknownuser-emptykey", "hmac-trunc", "hmac-ext", "hmac-flip", "altered",
 	"no-username", "no-realm", "no-nonce", "nonce-random", "nonce-alphabet", "nonce-mac-flip", "nonce-ts-flip",
-	"nonce-old", "nonce-old-fresh-appended", "nonce-lower", "nonce-other-server", "other-realm", "nonce-alnum-len", "nonce-alnum-len",
+	"nonce-old", "nonce-old-fresh-appended", "nonce-lower", "nonce-other-server", "other-realm", "realm-attr-other-key-own", "nonce-alnum-len", "nonce-alnum-len",
 }
 
 func genConfig(rt *rapid.T, p *Profile) Config {
